@@ -114,10 +114,20 @@ def _new_gateway(path: str) -> Gateway:
     return gw
 
 
-def _load(loop, path: str, via_context: bool):
+def _load(loop, path: str, via_context: bool, via_argument: bool = False):
     gw = _new_gateway(path)
     try:
-        if via_context:
+        if via_argument:
+            # load(path): the file is named by the argument; the object's own file is another one (an empty registry)
+            own = path + ".own"
+            with open(own, "w", encoding="utf-8") as fil:
+                fil.write("{}")
+            gw = _new_gateway(own)
+            try:
+                loop.run_until_complete(asyncio.wait_for(gw.persistence.load(path), 20))
+            finally:
+                os.unlink(own)
+        elif via_context:
             async def enter():
                 async with gw:
                     pass
@@ -199,7 +209,7 @@ def roundtrip_case(loop, d: str, gw: Gateway, k: int, prior_text: str | None = N
         case["saveRes"] = "unreadable-file:" + type(err).__name__
         return case
     case["text"] = text
-    case["loadRes"], case["loaded"] = _load(loop, path, via_context=(k % 4 == 0))
+    case["loadRes"], case["loaded"] = _load(loop, path, via_context=(k % 4 == 0), via_argument=(k % 4 == 1))
     leg = to_legacy(native) if isinstance(native, dict) else None
     if leg is not None:
         lpath = os.path.join(d, f"rt-{k}-legacy.json")
@@ -443,7 +453,8 @@ def _load_worker(job):
                 with open(path, "wb") as fil:
                     fil.write(content)
             gw = _new_gateway(path)
-            seeded = cls in ("missing", "empty") and k % 2 == 0
+            # (json files: every fifth one is loaded into a registry that already holds a node the file does not mention)
+            seeded = (cls in ("missing", "empty") and k % 2 == 0) or (cls == "json" and k % 5 == 0)
             if seeded:
                 gwdriver.build_registry(gw, before_odd if (cls == "missing" and k % 4 == 2) else before_nodes)
             before = proj(gw)["nodes"]
@@ -482,7 +493,8 @@ def _load_worker(job):
                 except BaseException as err:  # noqa: BLE001
                     res = "other:" + type(err).__name__
             case = {"kind": "load", "class": cls, "file": tagged, "res": res, "loaded": proj(gw)["nodes"], "before": before,
-                    "created": False, "via": ("context" if via_context else "load") + (", missing a second time on the same object" if again else "")}
+                    "created": False, "seeded": bool(seeded and cls == "json"),
+                    "via": ("context" if via_context else "load") + (", missing a second time on the same object" if again else "")}
             if cls == "missing":
                 case["created"] = os.path.exists(path)
                 if case["created"]:
